@@ -668,3 +668,46 @@ def write_apis_unconditional(ctx, pfx):
         else:
             must_do(ctx, '%s.ORDER.log_append[%s]' % (pfx, name), 'RF-ORDER', b, eff, 'Transaction::%s inserts the record into the log' % name,
                     key='RF-ORDER|log_append|%s' % name)
+
+
+def find_item_table(ctx, pfx):
+    """Transaction::find_appropriate_item picks, from the pending states of one user (ascending by epoch), the state
+    the database would return after commit: SpecificVersion/SpecificEpoch: the matching one; LeqEpoch(e): the LAST
+    one with epoch <= e (reverse scan); MaxEpoch: the last; MinEpoch: the first.
+    (Seeded change C15-r2-a dropped the `.rev()` of the LeqEpoch arm: the oldest instead of the newest.)"""
+    prog = ctx.prog
+    b = prog.one(TX + 'find_appropriate_item')
+    ve = variant_edges(b, lambda x: access_path(x) == 'flag')
+    if not ve:
+        ctx.ob(pfx + '.TABLE[find_appropriate_item]', 'RF-GUARD', False, b.path, '%s:%s' % (b.file, b.line), 'no dispatch on the retrieval flag')
+        return
+    tg = dict(ve[0]['edges'])
+    e = result_expr(b)
+    alts = e[1] if e[0] == 'phi' else (e,)
+
+    def closure_of(c):
+        cl = [a for a in c[3] if a[0] == 'closure']
+        if not cl:
+            return None, {}
+        cb = prog.bodies.get(cl[0][1])
+        return (result_expr(cb) if cb else None), dict(cl[0][2])
+    want = {
+        'SpecificVersion': lambda c, r, cap: call_is(c, 'find') and 'Rev' not in (c[2] or '') and r and r[0] == 'bin' and r[1] == 'Eq' and 'version' in show(r[2]),
+        'SpecificEpoch': lambda c, r, cap: call_is(c, 'find') and 'Rev' not in (c[2] or '') and r and r[0] == 'bin' and r[1] == 'Eq' and 'epoch' in show(r[2]),
+        'LeqEpoch': lambda c, r, cap: call_is(c, 'find') and 'Rev' in (c[2] or '') and r and r[0] == 'bin' and r[1] == 'Le' and 'epoch' in show(r[2]),
+        'MaxEpoch': lambda c, r, cap: call_is(c, 'next_back') or (call_is(c, 'last')),
+        'MinEpoch': lambda c, r, cap: call_is(c, 'next') and 'Rev' not in (c[2] or ''),
+    }
+    desc = {'SpecificVersion': 'the state with that version', 'SpecificEpoch': 'the state with that epoch',
+            'LeqEpoch': 'the newest state with epoch <= e (reverse scan)', 'MaxEpoch': 'the last state', 'MinEpoch': 'the first state'}
+    for v, pred in want.items():
+        tb = tg.get(v, ve[0]['else'])
+        mine = [a for a in alts if a[0] == 'call' and edge_dominates(b, (ve[0]['block'], tb), a[4])]
+        ok = False
+        for c in mine:
+            r, cap = closure_of(c)
+            payload_ok = v in ('MaxEpoch', 'MinEpoch') or any(('as %s' % v) in show(x) or (x[0] == 'field' and x[1][0] == 'variant' and x[1][2] == v) for x in cap.values())
+            ok = ok or (bool(pred(c, r, cap)) and payload_ok)
+        ctx.ob('%s.TABLE[find_appropriate_item:%s]' % (pfx, v), 'RF-GUARD', ok, b.path, '%s:%s' % (b.file, b.line),
+               '%s: %s' % (v, desc[v]) if ok else '%s arm no longer selects %s: %s' % (v, desc[v], [show(c)[:80] for c in mine]),
+               key='RF-GUARD|find_item|%s' % v)
